@@ -6,9 +6,12 @@ package rpc
 // Serves C14, C15 and the connection-level part of C16.
 
 import (
+	"bytes"
 	"errors"
 	"fmt"
 	"io"
+	"net"
+	"runtime"
 	"strconv"
 	"strings"
 	"sync"
@@ -49,7 +52,77 @@ var errVRetriableDial = errors.New("verif: dial failed (retriable)")
 var errVFatalDial = errors.New("verif: dial failed (fatal)")
 var errVOnConnect = errors.New("verif: OnConnect failed (retriable)")
 var errVOnConnectFatal = errors.New("verif: OnConnect failed (fatal)")
-var errVRetriableCmd = errors.New("verif: command failed (retriable)")
+
+type vRetriableErr struct{ id string }
+
+func (e vRetriableErr) Error() string { return "verif: command " + e.id + " failed (retriable)" }
+
+func vGoID() int64 {
+	var buf [64]byte
+	n := runtime.Stack(buf[:], false)
+	f := bytes.Fields(buf[:n])
+	if len(f) < 2 {
+		return -1
+	}
+	id, _ := strconv.ParseInt(string(f[1]), 10, 64)
+	return id
+}
+
+// a context that reports when the connection looks at its fire-now marker and when it starts to wait on it
+type vSpyCtx struct {
+	context.Context
+	ce      *vConnEngine
+	id      string
+	firenow bool
+}
+
+func (c *vSpyCtx) Value(key interface{}) interface{} {
+	if _, ok := key.(CtxFireNow); ok {
+		if c.firenow {
+			c.ce.ev.add("firenow/%s/t=%d", c.id, c.ce.ms())
+			return true
+		}
+		return nil
+	}
+	return c.Context.Value(key)
+}
+
+// structured connection log: the messages that mark the connect delay and the start of a wait
+type vConnLog struct{ ce *vConnEngine }
+
+func (l vConnLog) Warning(string, ...LogField) {}
+func (l vConnLog) Info(string, ...LogField)    {}
+func (l vConnLog) Debug(format string, fields ...LogField) {
+	if len(fields) == 0 || fields[0].Key != ConnectionLogMsgKey {
+		return
+	}
+	msg, _ := fields[0].Value.(string)
+	switch msg {
+	case "initial connect backoff", "initial reconnect backoff":
+		d := int64(-1)
+		if len(fields) > 1 {
+			if dd, ok := fields[1].Value.(time.Duration); ok {
+				d = int64(dd)
+			}
+		}
+		l.ce.ev.add("timerstart/d=%d/t=%d", d, l.ce.ms())
+	case "initial connect backoff done", "initial reconnect backoff done":
+		l.ce.ev.add("delaydone/t=%d", l.ce.ms())
+	case "getReconnectChan":
+		// logged inside waitForConnection's critical section (under the connection mutex) by a caller that is not
+		// connected or forces a reconnect: the exact moment at which it joins or starts a sequence
+		l.ce.wmu.Lock()
+		w, ok := l.ce.goCmd[vGoID()]
+		l.ce.wmu.Unlock()
+		if ok && l.ce.conn != nil {
+			st := 1
+			if l.ce.conn.reconnectChan == nil {
+				st = 9 // it starts the sequence itself
+			}
+			l.ce.ev.add("waiting/%s/firenow=%v/status=%d/t=%d", w.id, w.firenow && l.ce.delayConfigured, st, l.ce.ms())
+		}
+	}
+}
 var errVOtherCmd = errors.New("verif: command failed (other)")
 
 type vConnEngine struct {
@@ -68,6 +141,24 @@ type vConnEngine struct {
 	conn    *Connection
 	cmds    map[string]*vCmd
 	cmu     sync.Mutex
+	holdNext        int32
+	holdConn        int32
+	connHang        chan struct{}
+	climu           sync.Mutex
+	clients         []vCliState
+	wmu             sync.Mutex
+	goCmd           map[int64]vGoCmd
+	delayConfigured bool
+}
+
+type vCliState struct {
+	cli   GenericClient
+	state string // pending | ok | failed
+}
+
+type vGoCmd struct {
+	id      string
+	firenow bool
 }
 
 type vCmd struct {
@@ -90,6 +181,13 @@ func (ce *vConnEngine) Dial(ctx context.Context) (Transporter, error) {
 	ce.mu.Unlock()
 	ce.ev.add("dial-begin/%d/inprogress=%d/t=%d", i, n, ce.ms())
 	defer atomic.AddInt32(&ce.inDial, -1)
+	if atomic.CompareAndSwapInt32(&ce.holdNext, 1, 0) {
+		select {
+		case <-ce.hang:
+		case <-time.After(8 * time.Second):
+			ce.ev.add("timeout/held-dial-never-released")
+		}
+	}
 	switch out {
 	case "hang":
 		select {
@@ -158,23 +256,61 @@ func (ce *vConnEngine) OnConnect(ctx context.Context, c *Connection, cli Generic
 		out = ce.conns[i]
 	}
 	ce.mu.Unlock()
+	ce.climu.Lock()
+	ce.clients = append(ce.clients, vCliState{cli, "pending"})
+	ci := len(ce.clients) - 1
+	ce.climu.Unlock()
+	if atomic.CompareAndSwapInt32(&ce.holdConn, 1, 0) {
+		ce.ev.add("onconnect-held/%d", i)
+		select {
+		case <-ce.connHang:
+		case <-time.After(8 * time.Second):
+			ce.ev.add("timeout/held-onconnect-never-released")
+		}
+	}
 	ce.ev.add("onconnect/%d/%s", i, out)
+	setState := func(st string) {
+		ce.climu.Lock()
+		ce.clients[ci].state = st
+		ce.climu.Unlock()
+	}
 	switch out {
 	case "fail":
+		setState("failed")
 		return errVOnConnect
 	case "fatal":
+		setState("failed")
 		return errVOnConnectFatal
 	}
+	setState("ok")
 	return nil
+}
+
+func (ce *vConnEngine) clientState(cli GenericClient) string {
+	ce.climu.Lock()
+	defer ce.climu.Unlock()
+	for _, c := range ce.clients {
+		if c.cli == cli {
+			return c.state
+		}
+	}
+	return "unknown"
 }
 func (ce *vConnEngine) OnConnectError(err error, d time.Duration) { ce.ev.add("onconnecterror") }
 func (ce *vConnEngine) OnDoCommandError(err error, d time.Duration) {
-	ce.ev.add("ondocommanderror")
+	if e, ok := err.(vRetriableErr); ok {
+		ce.ev.add("ondocommanderror/%s", e.id)
+	} else {
+		ce.ev.add("ondocommanderror/?")
+	}
 }
 func (ce *vConnEngine) OnDisconnected(ctx context.Context, st DisconnectStatus) {
 	ce.ev.add("ondisconnected/%d/t=%d", st, ce.ms())
 }
-func (ce *vConnEngine) ShouldRetry(name string, err error) bool { return err == errVRetriableCmd }
+func (ce *vConnEngine) ShouldRetry(name string, err error) bool {
+	_, ok := err.(vRetriableErr)
+	return ok
+}
 func (ce *vConnEngine) ShouldRetryOnConnect(err error) bool {
 	return err != errVFatalDial && err != errVOnConnectFatal
 }
@@ -191,8 +327,6 @@ func vErrClassConn(err error) string {
 		return "ok"
 	case io.EOF:
 		return "eof"
-	case errVRetriableCmd:
-		return "retriable"
 	case errVOtherCmd:
 		return "other"
 	case errVFatalDial, errVOnConnectFatal:
@@ -201,6 +335,9 @@ func vErrClassConn(err error) string {
 		return "ctx"
 	case context.DeadlineExceeded:
 		return "ctx"
+	}
+	if _, ok := err.(vRetriableErr); ok {
+		return "retriable"
 	}
 	return "unknown:" + strings.ReplaceAll(err.Error(), " ", "_")
 }
@@ -231,7 +368,7 @@ func (ce *vConnEngine) settle() {
 }
 
 func vRunConn(c vCase) []string {
-	ce := &vConnEngine{ev: &vEvents{}, t0: time.Now(), hang: make(chan struct{}), cmds: map[string]*vCmd{}}
+	ce := &vConnEngine{ev: &vEvents{}, t0: time.Now(), hang: make(chan struct{}), connHang: make(chan struct{}), cmds: map[string]*vCmd{}, goCmd: map[int64]vGoCmd{}}
 	if s := c.get("dials"); s != "" && s != "-" {
 		ce.dials = strings.Split(s, ",")
 	}
@@ -252,8 +389,9 @@ func vRunConn(c vCase) []string {
 	if w := atoi("window"); w > 0 || c.get("window") == "0" {
 		opts.InitialReconnectBackoffWindow = func() time.Duration { return time.Duration(w) * time.Millisecond }
 	}
-	ce.ev.add("new/t=%d", ce.ms())
-	ce.conn = NewConnectionWithTransport(ce, ce, nil, vQuietOutput{}, opts)
+	ce.delayConfigured = opts.FirstConnectDelayDuration != 0 || opts.InitialReconnectBackoffWindow != nil
+	ce.ev.add("new/lazy=%v/force=%v/t=%d", opts.DontConnectNow, opts.ForceInitialBackoff, ce.ms())
+	ce.conn = newConnectionWithTransportAndProtocolsWithLog(ce, ce, nil, vConnLog{ce}, opts)
 	for _, op := range strings.Split(c.get("script"), ";") {
 		if op == "" {
 			continue
@@ -263,16 +401,17 @@ func vRunConn(c vCase) []string {
 		case "cmd": // cmd/<id>/<outcome,outcome,...>/<firenow 0|1>[/nowait]
 			id := f[1]
 			outs := strings.Split(f[2], ",")
-			ctx, cancel := context.WithCancel(context.Background())
-			if f[3] == "1" {
-				ctx = WithFireNow(ctx)
-			}
+			bctx, cancel := context.WithCancel(context.Background())
+			var ctx context.Context = &vSpyCtx{Context: bctx, ce: ce, id: id, firenow: f[3] == "1"}
 			cm := &vCmd{cancel: cancel, done: make(chan struct{})}
 			ce.cmu.Lock()
 			ce.cmds[id] = cm
 			ce.cmu.Unlock()
-			ce.ev.add("cmdstart/%s/t=%d", id, ce.ms())
+			ce.ev.add("cmdstart/%s/force=false/firenow=%v/t=%d", id, f[3] == "1", ce.ms())
 			go func() {
+				ce.wmu.Lock()
+				ce.goCmd[vGoID()] = vGoCmd{id, f[3] == "1"}
+				ce.wmu.Unlock()
 				k := 0
 				err := ce.conn.DoCommand(ctx, "cmd"+id, 0, func(cli GenericClient) error {
 					out := "ok"
@@ -283,13 +422,21 @@ func vRunConn(c vCase) []string {
 					if ce.IsConnected() {
 						conn = "1"
 					}
-					ce.ev.add("exec/%s/%d/%s/client=%v/connected=%s", id, k, out, cli != nil, conn)
+					ce.ev.add("exec/%s/%d/%s/client=%v/connected=%s/cstate=%s", id, k, out, cli != nil, conn, ce.clientState(cli))
 					k++
 					switch out {
 					case "eof":
 						return io.EOF
+					case "eofdisc":
+						ce.mu.Lock()
+						x := ce.current
+						ce.mu.Unlock()
+						if x != nil {
+							atomic.StoreInt32(&x.connected, 0)
+						}
+						return io.EOF
 					case "retriable":
-						return errVRetriableCmd
+						return vRetriableErr{id}
 					case "other":
 						return errVOtherCmd
 					}
@@ -341,15 +488,19 @@ func vRunConn(c vCase) []string {
 			}
 		case "force": // force/<id>[/nowait]: ForceReconnect
 			id := f[1]
-			ctx, cancel := context.WithCancel(context.Background())
+			bctx, cancel := context.WithCancel(context.Background())
+			var ctx context.Context = &vSpyCtx{Context: bctx, ce: ce, id: id}
 			cm := &vCmd{cancel: cancel, done: make(chan struct{})}
 			ce.cmu.Lock()
 			ce.cmds[id] = cm
 			ce.cmu.Unlock()
-			ce.ev.add("forcestart/%s", id)
+			ce.ev.add("cmdstart/%s/force=true/firenow=false/t=%d", id, ce.ms())
 			go func() {
+				ce.wmu.Lock()
+				ce.goCmd[vGoID()] = vGoCmd{id, false}
+				ce.wmu.Unlock()
 				err := ce.conn.ForceReconnect(ctx)
-				ce.ev.add("forceret/%s/%s", id, vErrClassConn(err))
+				ce.ev.add("cmdret/%s/%s", id, vErrClassConn(err))
 				close(cm.done)
 			}()
 			if len(f) > 2 && f[2] == "nowait" {
@@ -387,7 +538,21 @@ func vRunConn(c vCase) []string {
 		case "fastforward":
 			ce.ev.add("fastforward/t=%d", ce.ms())
 			ce.conn.FastForwardConnectDelayTimer()
+		case "holdconnect":
+			atomic.StoreInt32(&ce.holdConn, 1)
+		case "releaseconnect":
+			atomic.StoreInt32(&ce.holdConn, 0)
+			select {
+			case ce.connHang <- struct{}{}:
+			default:
+			}
+		case "holddial":
+			atomic.StoreInt32(&ce.holdNext, 1)
+		case "waitdelay": // waitdelay/<n>: n connect delays have ended
+			n, _ := strconv.Atoi(f[1])
+			ce.waitFor("delays>="+f[1], func() bool { return ce.ev.count("delaydone/") >= n })
 		case "releasedial":
+			atomic.StoreInt32(&ce.holdNext, 0)
 			select {
 			case ce.hang <- struct{}{}:
 			default:
@@ -404,6 +569,33 @@ func vRunConn(c vCase) []string {
 			time.Sleep(time.Duration(n) * time.Millisecond)
 		case "settle":
 			ce.settle()
+		case "longsettle": // longsettle/<ms>: no event for that long (lets a connect delay run out)
+			n, _ := strconv.Atoi(f[1])
+			last := atomic.LoadInt64(&ce.ev.n)
+			since := time.Now()
+			for time.Since(since) < time.Duration(n)*time.Millisecond {
+				time.Sleep(500 * time.Microsecond)
+				if m := atomic.LoadInt64(&ce.ev.n); m != last {
+					last, since = m, time.Now()
+				}
+			}
+		case "awaitall":
+			ce.cmu.Lock()
+			all := make([]*vCmd, 0, len(ce.cmds))
+			for _, cm := range ce.cmds {
+				all = append(all, cm)
+			}
+			ce.cmu.Unlock()
+			ce.waitFor("all-commands-return", func() bool {
+				for _, cm := range all {
+					select {
+					case <-cm.done:
+					default:
+						return false
+					}
+				}
+				return true
+			})
 		case "isconnected":
 			ce.ev.add("isconnected/%v", ce.conn.IsConnected())
 		}
@@ -417,6 +609,7 @@ func vRunConn(c vCase) []string {
 	ce.cmu.Unlock()
 	go ce.conn.Shutdown()
 	close(ce.hang)
+	close(ce.connHang)
 	time.Sleep(2 * time.Millisecond)
 	return evs
 }
@@ -492,6 +685,17 @@ func vConnCases(t *testing.T) {
 					out.printf("conn %s ev=%s", c.id, strings.Join(evs, ";"))
 				})
 			}()
+		case "ctrans":
+			vGuard(out, c.kind, c.id, func() {
+				mk := func(d *vScriptDialable) ConnectionTransport {
+					uri, _ := ParseFMPURI("fmprpc://srv.test:443")
+					return NewConnectionTransportWithDialable(uri, NewSimpleLogFactory(vQuietOutput{}, vQuietOpts{}), nil, nil, 1<<20, d)
+				}
+				if c.get("kind") == "tls" {
+					mk = vMkTLSCTrans
+				}
+				out.printf("ctrans %s views=%s", c.id, vRunCTrans(c, mk, nil))
+			})
 		case "timer":
 			wg.Add(1)
 			sem <- struct{}{}
@@ -510,3 +714,125 @@ func vConnCases(t *testing.T) {
 func TestVerifC14(t *testing.T) { vConnCases(t) }
 func TestVerifC15(t *testing.T) { vConnCases(t) }
 func TestVerifC16(t *testing.T) { vConnCases(t) }
+
+// ---------------------------------------------------------------- the built-in connection transports
+
+type vTrackedConn struct {
+	net.Conn
+	closed int32
+}
+
+func (c *vTrackedConn) Close() error {
+	atomic.StoreInt32(&c.closed, 1)
+	return c.Conn.Close()
+}
+
+type vScriptDialable struct {
+	mu    sync.Mutex
+	next  []bool // outcomes of the coming Dial calls
+	conns []*vTrackedConn
+	wrap  func(server net.Conn) // what the far end does with its side
+	tcp   bool
+}
+
+func (d *vScriptDialable) SetOpts(time.Duration, time.Duration) {}
+func (d *vScriptDialable) Dial(ctx context.Context, network, addr string) (net.Conn, error) {
+	d.mu.Lock()
+	defer d.mu.Unlock()
+	ok := true
+	if len(d.next) > 0 {
+		ok, d.next = d.next[0], d.next[1:]
+	}
+	if !ok {
+		return nil, errVRetriableDial
+	}
+	var cl, srv net.Conn
+	if d.tcp {
+		// a real loopback connection: TLS alerts need the kernel's buffering (both ends may be writing at once)
+		ln, err := net.Listen("tcp", "127.0.0.1:0")
+		if err != nil {
+			return nil, err
+		}
+		acc := make(chan net.Conn, 1)
+		go func() {
+			c, _ := ln.Accept()
+			acc <- c
+			ln.Close()
+		}()
+		cl, err = net.Dial("tcp", ln.Addr().String())
+		if err != nil {
+			ln.Close()
+			return nil, err
+		}
+		srv = <-acc
+		if srv == nil {
+			cl.Close()
+			return nil, errVRetriableDial
+		}
+	} else {
+		cl, srv = net.Pipe()
+	}
+	c := &vTrackedConn{Conn: cl}
+	d.conns = append(d.conns, c)
+	if d.wrap != nil {
+		w := d.wrap
+		go w(srv)
+	} else {
+		go func() { _, _ = io.Copy(io.Discard, srv); srv.Close() }()
+	}
+	return c, nil
+}
+
+func vRunCTrans(c vCase, mk func(d *vScriptDialable) ConnectionTransport, wrap func(net.Conn)) string {
+	d := &vScriptDialable{wrap: wrap}
+	ct := mk(d)
+	var xps []Transporter
+	var views []string
+	for _, op := range strings.Split(c.get("ops"), ",") {
+		res := "ok"
+		func() {
+			defer func() {
+				if r := recover(); r != nil {
+					res = "panic:" + strings.ReplaceAll(fmt.Sprint(r), " ", "_")
+				}
+			}()
+			switch op {
+			case "dialok", "dialfail":
+				d.mu.Lock()
+				d.next = []bool{op == "dialok"}
+				d.mu.Unlock()
+				x, err := ct.Dial(context.Background())
+				if err == nil {
+					xps = append(xps, x)
+				} else if op == "dialok" {
+					res = "dialerr:" + strings.ReplaceAll(err.Error(), " ", "_")
+				}
+			case "finalize":
+				ct.Finalize()
+			case "close":
+				ct.Close()
+			}
+		}()
+		time.Sleep(200 * time.Microsecond)
+		var v []string
+		d.mu.Lock()
+		for i, x := range xps {
+			co := "?"
+			if i < len(d.conns) {
+				co = fmt.Sprint(atomic.LoadInt32(&d.conns[i].closed) == 0)
+			}
+			v = append(v, fmt.Sprintf("%d:%v:%s", i+1, x.IsConnected(), co))
+		}
+		d.mu.Unlock()
+		views = append(views, op+"="+res+"="+strings.Join(v, ","))
+	}
+	// teardown
+	func() {
+		defer func() { _ = recover() }()
+		ct.Close()
+	}()
+	for _, x := range xps {
+		x.Close()
+	}
+	return strings.Join(views, "|")
+}
